@@ -5,7 +5,19 @@ import os
 HERE = os.path.dirname(os.path.dirname(os.path.abspath(__file__)))
 
 CLAIMED = {
-    "C03": dict(
+    "C10": dict(
+        level="exploration", design="DESIGN.md 3/C10",
+        text=("Invariants over the live instance pool of seeded histories (classes additionally hold bound methods, functions, "
+              "classes and modules at seeded attribute positions): == / != in both directions on seeded pairs and triples (same "
+              "class, class and subclass) are reflexive, symmetric, transitive and equal the reference attribute-wise comparison "
+              "(compare=False ignored, missing equals only missing, bound methods by function); every copy-on-write result is "
+              "compared with its receiver (pairs differing in exactly the changed attributes, at every declaration position); "
+              "deepcopy(x) == x; re-construction from own attribute values is equal; repr never raises (missing values, direct and "
+              "list-wrapped self references) and lists exactly the repr-enabled attributes in declaration order. No fault or "
+              "schedule bears on these relations; the simulator contributes the reachable-state pool."),
+        note="Trusted: reference comparison and repr parser in specsim/props/c10.py. Copying / comparing cyclic structures is not claimed by the statement and not checked.",
+        technique="deterministic simulation: seeded operation histories as state-pool generator, relational invariants vs reference comparison",
+    ),    "C03": dict(
         level="exploration", design="DESIGN.md 3/C03",
         text=("After every operation of a seeded history (45% of operations carry one non-conforming value aimed at one position of "
               "one route: constructor keyword, dict-to-spec casting, obj.a = v, scalar helpers, element helpers by index / key / value, "
